@@ -71,6 +71,23 @@ type State struct {
 	pendingAlloc string // alloc counter that bounds references in heap versions being created
 	loopSnaps map[*ssa.BasicBlock]*snapshot // heap at the first arrival at each loop head (atloop(...))
 	iterSnaps map[*ssa.BasicBlock]*snapshot // heap at the start of the symbolic iteration (atiter(...))
+	events    *evNode                       // persistent list of external interactions (replay scripts)
+}
+
+// extEvent is one call that the real code makes into something the replay has to
+// fake: a method of a modelled interface (Transport, net.Conn, ...) or a callback.
+type extEvent struct {
+	kind string // method | role
+	key  string // "Transport.Send" | role name
+	recv Val    // interface value, or the function value
+	res  Val
+	sig  *types.Signature
+	post *snapshot
+}
+
+type evNode struct {
+	ev   *extEvent
+	prev *evNode
 }
 
 func (st *State) fork() *State {
@@ -105,6 +122,7 @@ func (st *State) fork() *State {
 		n.ghostInt[k] = v
 	}
 	n.trace = append([]string(nil), st.trace...)
+	n.events = st.events
 	n.pendingAlloc = st.pendingAlloc
 	if st.loopSnaps != nil {
 		n.loopSnaps = make(map[*ssa.BasicBlock]*snapshot, len(st.loopSnaps))
